@@ -145,45 +145,14 @@ def d15_1(ctx):
     ctx.check(good, ckey(fn, "returns"), f, "returns (host, port, parse_cip_route(route, auto_slot))", "the parser does not return host, port and the route parsed with the auto_slot flag")
 
 
-@rule(P, "D15.2", "T-DOM", floor=3)
-def d15_2(ctx):
-    """Pairing is dominated by the odd-count test that raises RequestError; auto-slot shortcuts."""
-    fn = ctx.model.func(f"{CD}:parse_cip_route")
-    f = fn.node
-    g = ctx.cfg(f)
-    pathp, autop = f.args.args[0].arg, f.args.args[1].arg
-    odd = None
-    for t in g.nodes:
-        if t.kind == "test" and isinstance(t.ast, ast.BinOp) and isinstance(t.ast.op, ast.Mod) and ctx.folder.eval(t.ast.right, fn.module) == 2 and isinstance(t.ast.left, ast.Call) and call_name(t.ast.left) == "len":
-            odd = t
-    pair_nodes = [n for n in g.nodes if n.kind == "stmt" and any(isinstance(c, ast.Call) and call_name(c) == "PortSegment" and len(c.args) == 2 and not isinstance(c.args[0], ast.Constant) for c in walk(n.ast))]
-    good = False
-    if odd is not None and pair_nodes:
-        raised, cont = branch_outcome(g, odd, True)
-        good = raised == {"RequestError"} and not cont and all(g.branch_dominates(odd, False, p) for p in pair_nodes if not _in_shortcut(p.ast))
-    ctx.check(good, ckey(fn, "odd-count"), odd.ast if odd else f, "an odd number of route segments raises RequestError before any pairing", "port/link pairing is not dominated by an odd-count test raising RequestError (an odd route silently drops or mis-pairs a segment)")
-    # tiling of pairs
-    tile = False
-    for n in walk(f):
-        if isinstance(n, ast.GeneratorExp) and isinstance(n.elt, ast.Subscript) and isinstance(n.elt.slice, ast.Slice):
-            gen = n.generators[0]
-            i = atom_name(gen.target)
-            it = gen.iter
-            sl = n.elt.slice
-            if isinstance(it, ast.Call) and call_name(it) == "range" and len(it.args) == 3:
-                tile = (ctx.folder.eval(it.args[0], fn.module) == 0 and atom_name(it.args[1]) == f"len({atom_name(n.elt.value)})" and ctx.folder.eval(it.args[2], fn.module) == 2
-                        and atom_name(sl.lower) == i and src(sl.upper).replace(" ", "") == f"{i}+2")
-    ctx.check(tile, ckey(fn, "pairs"), f, "segments[i:i+2] for i in range(0, len(segments), 2)", "segments are not tiled into consecutive (port, link) pairs from index 0")
-    ctor = [c for n in pair_nodes for c in walk(n.ast) if isinstance(c, ast.Call) and call_name(c) == "PortSegment" and isinstance(c.args[0], ast.IfExp)]
-    good = False
-    if ctor:
-        e = ctor[0].args[0]
-        good = isinstance(e.test, ast.Call) and attr_path(e.test.func) in ("port.isdigit", "port.isnumeric") and isinstance(e.body, ast.Call) and call_name(e.body) == "int" and atom_name(e.orelse) == "port" and atom_name(ctor[0].args[1]) == "link"
-    ctx.check(good, ckey(fn, "port-number"), f, "numeric ports become int(port); names stay names; the link is passed through", "PortSegment(int(port) if port.isdigit() else port, link) changed")
-    # shortcuts and pairing, decided on witnesses (sa/miniinterp.py): the function is folded on route lists / strings with
-    # and without the auto-slot flag; PortSegment(...) constructions come back as (port, link) pairs
+def _d15_2_shortcuts(ctx):
+    """Shortcuts, pairing and freshness decided on witnesses: the function is folded on route lists / strings with and without
+    the auto-slot flag; a result that is a module-level list would be shared between calls."""
     from ..miniinterp import run_function
 
+    fn = ctx.model.func(f"{CD}:parse_cip_route")
+    f = fn.node
+    pathp, autop = f.args.args[0].arg, f.args.args[1].arg
     witnesses = [
         (([], True), [("bp", 0)]), (([], False), []), ((["3"], True), [("bp", "3")]), ((["3"], False), "RequestError"),
         ((["bp", "1"], True), [("bp", "1")]), ((["bp", "1"], False), [("bp", "1")]), ((["1", "2"], False), [(1, "2")]),
@@ -211,6 +180,17 @@ def d15_2(ctx):
     else:
         ctx.check(not bad and not shared, key, f, f"no segments -> bp/0 and one segment -> bp/<segment> with auto slot only; pairs otherwise; odd counts refused ({len(witnesses)} witnesses); results are fresh lists",
                   (f"route parsing deviates: {bad[:2]}" if bad else f"the route returned for {shared} is a module-level list shared between calls: a caller that edits its route (the Micro800 driver pops the slot) changes the route of every later bare-address path"), witnesses=len(witnesses))
+
+
+@rule(P, "D15.2", "T-WITNESS", floor=3)
+def d15_2(ctx):
+    """Routes are consecutive (port, link) pairs from the first element; an odd element count is RequestError; digits become port
+    numbers; the auto-slot shortcuts apply only when asked; every call returns a fresh list.  Decided by folding
+    `parse_cip_route` on witness routes (D15.11) and, for the default route of a bare address, the freshness witnesses below."""
+    from .driver import _route_rule
+
+    _route_rule(ctx)
+    _d15_2_shortcuts(ctx)
 
 
 def _in_shortcut(stmt):
@@ -251,26 +231,13 @@ def d15_4(ctx):
     ctx.check(not bad, ckey(ps.key, "port_segments#range"), node, "all named ports fit the 4-bit port field and are lower-case", f"port table entries outside 1..14 / not lower-case: {bad}")
 
 
-@rule(P, "D15.5", "T-DOM", floor=3)
+@rule(P, "D15.5", "T-WITNESS", floor=3)
 def d15_5(ctx):
-    """Unknown port names and bad links are rejected at encode time inside the DataError wrapper."""
-    ps = ctx.model.cls(f"{DT}:PortSegment")
-    fn = ps.methods["_encode"]
-    lookup = [n for n in walk(fn) if isinstance(n, ast.Subscript) and attr_path(n.value) == "cls.port_segments" and attr_path(n.slice) == "segment.port"]
-    soft = [n for n in walk(fn) if isinstance(n, ast.Call) and attr_path(n.func) == "cls.port_segments.get"]
-    under_str = bool(lookup) and isinstance(getattr(getattr(lookup[0], "_parent", None), "_parent", None), ast.If) and "isinstance(segment.port,str)" in src(lookup[0]._parent._parent.test).replace(" ", "")
-    ctx.check(len(lookup) == 1 and not soft and under_str, ckey(ps.key + "._encode", "port-lookup"), fn, "str ports are looked up by subscript (unknown name -> KeyError -> DataError)", "unknown port names are no longer rejected by a raising table lookup")
-    g = ctx.cfg(fn)
-    enc = [n for n in g.nodes if n.kind == "stmt" and any(isinstance(c, ast.Call) and attr_path(c.func) == "segment.link_address.encode" for c in walk(n.ast))]
-    val = [n for n in g.nodes if n.kind == "stmt" and any(isinstance(c, ast.Call) and (call_name(c) or "").endswith("ipaddress.ip_address") and attr_path(c.args[0]) == "segment.link_address" for c in walk(n.ast))]
-    good = bool(enc) and bool(val) and all(g.must_pass(set(val), sinks={e}) is None for e in enc)
-    ctx.check(good, ckey(ps.key + "._encode", "ip-link"), fn, "non-numeric links are validated by ipaddress.ip_address before being used", "a non-numeric link address reaches the route without ip address validation")
-    num = [c for c in walk(fn) if isinstance(c, ast.Call) and attr_path(c.func) == "USINT.encode" and isinstance(c.args[0], ast.Call) and call_name(c.args[0]) == "int" and attr_path(c.args[0].args[0]) == "segment.link_address"]
-    isnum = [n for n in walk(fn) if isinstance(n, ast.If) and isinstance(n.test, ast.Call) and attr_path(n.test.func) in ("segment.link_address.isnumeric", "segment.link_address.isdigit")]
-    ctx.check(len(num) == 1 and len(isnum) == 1, ckey(ps.key + "._encode", "numeric-link"), fn, "numeric str links are encoded through USINT (0..255)", "numeric link strings are not range-checked through USINT")
-    base = ctx.model.cls(f"{DT}:CIPSegment")
-    calls = [c for c in walk(base.methods["encode"]) if isinstance(c, ast.Call) and attr_path(c.func) == "cls._encode"]
-    ctx.check(len(calls) == 1, ckey(base.key + ".encode", "dispatch"), base.methods["encode"], "CIPSegment.encode dispatches to the segment's _encode inside its wrapper", "CIPSegment.encode no longer calls cls._encode")
+    """Unknown port names, port numbers outside 1..14, links that are neither one byte nor an IP address are rejected when the
+    route is encoded.  Decided by folding `PortSegment._encode` on witness segments (D15.10)."""
+    from .driver import _segment_rule
+
+    _segment_rule(ctx)
 
 
 @rule(P, "D15.6", "T-SPEC", floor=4)
